@@ -48,7 +48,7 @@ def case_strategy(opts):
         # an "earlier version": apply 1-2 edits backwards
         old = prog
         for _ in range(draw(st.integers(1, 2))):
-            old = M.apply_edit(old, draw(G.edits(old, root, kinds=["setvar", "bump", "pad", "setlit", "reorder"], opts=opts)))
+            old = M.apply_edit(old, draw(G.edits(old, root, kinds=["setvar", "bump", "pad", "tcomment", "tcomment", "setlit", "reorder"], opts=opts)))
         variants = draw(st.lists(st.sampled_from(VARIANTS), min_size=3, max_size=5, unique=True))
         return {"prog": prog, "root": root, "style": style, "others": others, "old": old, "variants": variants}
 
